@@ -8,7 +8,7 @@ echo "--- tests with the change"
 /venv/bin/python -m pytest -q -p no:cacheprovider --timeout=900 bycycle/tests --deselect bycycle/tests/utils/test_download.py --deselect bycycle/tests/test_persistence.py 2>&1 | tail -1
 echo "--- demo with the change (expect FAIL / exit 1)"
 /venv/bin/python seed_out/demo.py 2>&1 | tail -2; echo "exit=$?"
-git -C "$wt" stash -q -- bycycle
+git -C "$wt" apply -R seed_out/patch.diff
 echo "--- demo without the change (expect PASS / exit 0)"
 /venv/bin/python seed_out/demo.py 2>&1 | tail -1; echo "exit=${PIPESTATUS[0]}"
-git -C "$wt" stash pop -q
+git -C "$wt" apply seed_out/patch.diff
